@@ -39,7 +39,7 @@ func init() {
 	register(&Rule{Name: "POS.STALELINE", Props: []string{"C16"}, Floor: 3,
 		Doc: "a lexer error position read from the cursor is read before any rune that may be a line break is consumed",
 		Run: rulePosStaleLine})
-	register(&Rule{Name: "NS.CARRY", Props: []string{"C12"}, Floor: 1,
+	register(&Rule{Name: "NS.CARRY", Props: []string{"C12", "C17"}, Floor: 1,
 		Doc: "an entry made to stand for another (the implicit case of a shorthand choice branch) takes over its namespace stamp",
 		Run: ruleNsCarry})
 	register(&Rule{Name: "DEV.TABLES", Props: []string{"C08"}, Floor: 1,
